@@ -110,6 +110,8 @@ struct Expect {
     sb_spec: Vec<usize>,
     /// the screen before the command (to tell "blanked with the wrong pen" from "not touched")
     pre_grid: Vec<RRow>,
+    /// rows a scroll of this step filled with blanks
+    vacated: Vec<usize>,
 }
 
 #[derive(Debug)]
@@ -179,6 +181,7 @@ impl RefTerm {
             adopt_content: false,
             sb_spec: vec![],
             pre_grid: vec![],
+            vacated: vec![],
         }
     }
 
@@ -214,6 +217,7 @@ impl RefTerm {
                 self.grid[r] = self.grid[r + n].clone();
             } else {
                 self.grid[r] = RRow::blank(self.cols, self.pen);
+                ex.vacated.push(r);
             }
         }
         for r in a.saturating_sub(1)..=b {
@@ -241,6 +245,7 @@ impl RefTerm {
                 self.grid[r] = self.grid[r - n].clone();
             } else {
                 self.grid[r] = RRow::blank(self.cols, self.pen);
+                ex.vacated.push(r);
             }
             if r == a {
                 break;
@@ -1026,7 +1031,7 @@ impl RefTerm {
                     if let Some(k) = (0..m.cells.len().min(r.cells.len())).find(|&k| m.cells[k] != r.cells[k]) {
                         let (e, g) = (m.cells[k], r.cells[k]);
                         let untouched = ex.pre_grid.get(i).and_then(|r| r.cells.get(k)).map(|p| *p == g).unwrap_or(false);
-                        if e.0 == ' ' && g.0 == ' ' && e.1 == cur_pen && !untouched {
+                        if e.0 == ' ' && g.0 == ' ' && e.1 == cur_pen && (!untouched || ex.vacated.contains(&i)) {
                             return StepRes::Mismatch(format!(
                                 "row {} col {}: blank cell has pen {:?}, expected the current pen {:?} (row {:?})",
                                 i, k, g.1, e.1, r
@@ -1036,7 +1041,12 @@ impl RefTerm {
                     let pen_only = m.cells.len() == r.cells.len()
                         && m.cells.iter().zip(r.cells.iter()).all(|(a, b)| a.0 == b.0)
                         && (0..m.cells.len()).any(|k| {
+                            // expected in the current pen, rewritten, and reporting another pen
+                            // (a cell written in the right pen that should not have been written
+                            // at all is a matter of extent, not of the pen)
                             m.cells[k] != r.cells[k]
+                                && m.cells[k].1 == cur_pen
+                                && r.cells[k].1 != cur_pen
                                 && ex.pre_grid.get(i).and_then(|p| p.cells.get(k)).map(|p| *p != r.cells[k]).unwrap_or(true)
                         });
                     return StepRes::Mismatch(format!(
